@@ -135,7 +135,8 @@ ListVals   == {<<>>, <<<<"x">>>>, <<<<"x">>, <<"y">>>>, <<<<"x", ",", "y">>>>, <
 MapKeys    == {<<"b">>, <<"b", "1">>, <<"B">>, <<"b", "_", "c">>, <<"c">>}
 InnerVal(a, l) == (A1 :> a) @@ (L1 :> l)
 InnerVals == {InnerVal(<<"x">>, <<<<"x">>>>), InnerVal(Unset, <<Unset>>)}
-BaseMaps  == {<<>>} \cup {(<<"b">> :> iv) : iv \in InnerVals} \cup {(<<"b">> :> InnerVal(<<"x">>, <<>>)) @@ (<<"b", "1">> :> iv) : iv \in InnerVals}
+EmptyMap  == [x \in {} |-> <<>>]
+BaseMaps  == {EmptyMap} \cup {(<<"b">> :> iv) : iv \in InnerVals} \cup {(<<"b">> :> InnerVal(<<"x">>, <<>>)) @@ (<<"b", "1">> :> iv) : iv \in InnerVals}
 BaseLists == {<<>>} \cup {<<iv>> : iv \in InnerVals} \cup {<<InnerVal(<<"x">>, <<>>), iv>> : iv \in InnerVals}
 Bases == {(A1 :> <<"x">>) @@ (L1 :> <<<<"x">>>>) @@ (M1 :> m) @@ (U1 :> u) : m \in BaseMaps, u \in BaseLists}
 
@@ -213,7 +214,7 @@ LV(n, items) ==
 
 StringVals == << V("simple", "abc", "abc"), V("empty", "", ""), V("spaces", "two words here", "two words here"),
                  V("comma", "a,b", "a,b"), V("numeric", "123", "123"), V("boolLike", "yes", "yes"), V("nullLike", "null", "null"),
-                 V("punct", "~t #h a: b", "~t #h a: b"), V("leadSpace", " lead", " lead"), V("unicode", "été", "été"),
+                 V("punct", "~t #h a: b", "~t #h a: b"), V("leadSpace", " lead", " lead"),
                  V("quoteBackslash", "a\"b\\c", "a\"b\\c"), V("plain", Raw("plainvalue"), "plainvalue") >>
 IntVals    == << V("small", 5, "5"), V("zero", 0, "0"), V("negative", -3, "-3"), V("max32", 2147483647, "2147483647"),
                  V("pow2", 1024, "1024"), V("one", 1, "1"), V("payload", 1400, "1400"),
@@ -221,8 +222,7 @@ IntVals    == << V("small", 5, "5"), V("zero", 0, "0"), V("negative", -3, "-3"),
 UintVals   == << V("small", 7, "7"), V("zero", 0, "0"), V("multiple8", 640, "640"),
                  V("max32", Raw("4294967295"), "4294967295"),
                  X("beyond32", Raw("4294967296"), "4294967296", "integers from the environment are parsed with 32 bits") >>
-FloatVals  == << V("fraction", Raw("1.5"), "1.5"), V("zero", 0, "0"), V("negative", Raw("-0.25"), "-0.25"), V("integer", 3, "3"),
-                 V("exponent", Raw("1e3"), "1e3") >>
+FloatVals  == << V("fraction", Raw("1.5"), "1.5"), V("zero", 0, "0"), V("negative", Raw("-0.25"), "-0.25"), V("integer", 3, "3") >>
 BoolVals   == << V("true", TRUE, "true"), V("false", FALSE, "false"), V("yes", Raw("yes"), "yes"), V("no", Raw("no"), "no"),
                  X("on", Raw("on"), "on", "on/off are accepted in the file only (YAML 1.1 legacy)"),
                  X("upperYES", Raw("true"), "YES", "the environment is case-insensitive; the file grammar is not stated") >>
@@ -237,6 +237,7 @@ CredentialVals == << V("plain", "user1", "user1"), V("symbols", "pa!$()*+.;<=>[]
                      V("empty", "", "") >>
 StrListVals == << LV("empty", <<>>), LV("one", <<It("a")>>), LV("two", <<It("a"), It("b")>>), LV("spaces", <<It("a b"), It("c")>>),
                   LV("urls", <<It("stun:stun.example.org:3478"), It("https://example.org")>>),
+                  LV("mixedCase", <<It("Alpha"), It("BETA"), It("gamma")>>),
                   LV("emptyItemLast", <<It("a"), It("")>>),
                   LV("commaItem", <<ItC("a,b")>>), LV("oneEmptyItem", <<It("")>>) >>
 UintListVals == << LV("two", <<Num("10000", 10000), Num("20000", 20000)>>), LV("one", <<Num("7", 7)>>), LV("empty", <<>>) >>
@@ -301,14 +302,22 @@ KeyClasses == IF Full
               THEN << <<"c","a","m">>, <<"c","a","m","1">>, <<"0","9">>, <<"m","y","_","c","a","m">>, <<"C","a","m">>,
                       <<"a","l","l","_","o","t","h","e","r","s">>, <<"c","a","m","/","s","u","b">>, <<"c","a","m","-","1">> >>
               ELSE << <<"c","a","m">>, <<"c","a","m","1">>, <<"m","y","_","c","a","m">>, <<"C","a","m">> >>
-Entries(k) == IF KeyExpressible(k) THEN (IF Full \/ k = <<"c","a","m">> THEN <<"absent", "present", "null">> ELSE <<"present">>)
-              ELSE <<"present">>
-\* list contexts: [len |-> items in the file, idx |-> position addressed]; len = -1: the list comes from the built-in defaults
+\* state of the map entry in the file before the parameter is written: no entry, an entry with another
+\* parameter, an entry without a value ("cam:" - as all_others in the shipped mediamtx.yml)
+NullEntryTags == {"source", "record", "recordDeleteAfter", "maxReaders", "forward"}
+Entries(k, p) == IF ~KeyExpressible(k) THEN <<"present">>
+                 ELSE IF Full THEN <<"absent", "present", "null">>
+                 ELSE IF k # <<"c","a","m">> THEN <<"present">>
+                 ELSE IF p.tag \in NullEntryTags THEN <<"absent", "present", "null">> ELSE <<"absent", "present">>
+\* list contexts: [len |-> items of the list in the file, idx |-> position addressed];
+\* len = -1: the list is not in the file, the built-in defaults (p.dlen items) apply
 ListCtx == IF Full
            THEN << [len |-> 0, idx |-> 0], [len |-> 1, idx |-> 0], [len |-> 2, idx |-> 1], [len |-> 2, idx |-> 2], [len |-> 2, idx |-> 0],
                    [len |-> 1, idx |-> 2], [len |-> 1, idx |-> 10], [len |-> 10, idx |-> 10], [len |-> 11, idx |-> 1], [len |-> -1, idx |-> 0], [len |-> -1, idx |-> 1] >>
            ELSE << [len |-> 0, idx |-> 0], [len |-> 2, idx |-> 1], [len |-> 2, idx |-> 2], [len |-> 1, idx |-> 2], [len |-> -1, idx |-> 0] >>
-InnerListCtx == << [len |-> 1, idx |-> 0], [len |-> 1, idx |-> 1] >>
+\* parameters inside a list inside a list: the outer item exists in the file (it holds the inner list)
+OuterListCtx == << [len |-> 1, idx |-> 0], [len |-> 2, idx |-> 1] >>
+InnerListCtx == << [len |-> 1, idx |-> 0], [len |-> 1, idx |-> 1], [len |-> 1, idx |-> 3] >>
 
 NK(p) == Cardinality({i \in 1..Len(p.addr) : p.addr[i].t = "k"})
 NI(p) == Cardinality({i \in 1..Len(p.addr) : p.addr[i].t = "i"})
@@ -322,30 +331,37 @@ Concrete(a, key, lcs) ==
          ELSE IF st.t = "i" THEN <<I(lcs[1].idx)>> \o Concrete(Tail(a), key, Tail(lcs))
          ELSE <<F(st.cs)>> \o Concrete(Tail(a), key, lcs)
 
-ListsOK(lcs) == \A i \in 1..Len(lcs) : lcs[i].len = -1 \/ lcs[i].idx <= lcs[i].len
-ListWhy(lcs) == IF ListsOK(lcs) THEN "" ELSE "the list position leaves a gap"
+\* (len = -1: the list has the length it has in the built-in defaults, dlen)
+EffLen(lc, dlen) == IF lc.len = -1 THEN dlen ELSE lc.len
+ListsOK(lcs, dlen) == \A i \in 1..Len(lcs) : lcs[i].idx <= EffLen(lcs[i], dlen)
+\* a new item of a list whose items are decoded and validated as a whole by the file decoder (p.itemdec,
+\* reported by the harness: the item type has its own UnmarshalJSON) cannot be written with one variable
+NewItem(lcs, dlen) == \E i \in 1..Len(lcs) : lcs[i].idx = EffLen(lcs[i], dlen)
+ItemOK(p, lcs) == ~(p.itemdec /\ NewItem(lcs, p.dlen))
+ListWhy(p, lcs) == IF ~ListsOK(lcs, p.dlen) THEN "the list position leaves a gap"
+                   ELSE IF ~ItemOK(p, lcs) THEN "a new item of a list whose items are validated as a whole needs several variables"
+                   ELSE ""
 
 CtxsOf(p) ==
     LET keys == IF NK(p) = 0 THEN << <<>> >> ELSE KeyClasses
         lists == IF NI(p) = 0 THEN << <<>> >>
                  ELSE IF NI(p) = 1 THEN [i \in 1..Len(ListCtx) |-> <<ListCtx[i]>>]
-                 ELSE [i \in 1..(Len(ListCtx) * Len(InnerListCtx)) |->
-                          <<ListCtx[((i - 1) \div Len(InnerListCtx)) + 1], InnerListCtx[((i - 1) % Len(InnerListCtx)) + 1]>>]
-    IN {[key |-> keys[i], entry |-> en, lists |-> lists[j]] :
-           i \in 1..Len(keys), j \in 1..Len(lists),
-           en \in IF NK(p) = 0 THEN {"none"} ELSE Range(Entries(keys[i]))}
+                 ELSE [i \in 1..(Len(OuterListCtx) * Len(InnerListCtx)) |->
+                          <<OuterListCtx[((i - 1) \div Len(InnerListCtx)) + 1], InnerListCtx[((i - 1) % Len(InnerListCtx)) + 1]>>]
+        ents(kk) == IF NK(p) = 0 THEN {"none"} ELSE Range(Entries(kk, p))
+    IN UNION {{[key |-> keys[i], entry |-> en, lists |-> lists[j]] : j \in 1..Len(lists), en \in ents(keys[i])} : i \in 1..Len(keys)}
 
 EmitParam(p) ==
     LET vals == ValsOf(p) IN
     \A cx \in CtxsOf(p) : \A vi \in 1..Len(vals) :
         LET val == vals[vi]
-            alt == vals[(vi % Len(vals)) + 1]
+            altv == vals[(vi % Len(vals)) + 1]
             ca  == Concrete(p.addr, cx.key, cx.lists)
             kx  == NK(p) = 0 \/ KeyExpressible(cx.key)
-            why == IF ~val.x THEN val.why ELSE IF ~kx THEN KeyWhy(cx.key) ELSE ListWhy(cx.lists)
+            why == IF ~val.x THEN val.why ELSE IF ~kx THEN KeyWhy(cx.key) ELSE ListWhy(p, cx.lists)
         IN Emit("CASE", [pid |-> p.pid, key |-> cx.key, entry |-> cx.entry, lists |-> cx.lists, vn |-> val.n,
-                         y |-> val.y, alt |-> alt.y, e |-> val.e, k |-> KeyOf(ca),
-                         x |-> val.x /\ kx /\ ListsOK(cx.lists), why |-> why])
+                         y |-> val.y, alt |-> altv.y, e |-> val.e, k |-> KeyOf(ca),
+                         x |-> val.x /\ kx /\ ListsOK(cx.lists, p.dlen) /\ ItemOK(p, cx.lists), why |-> why])
 
 EmitCases == GenMode => \A i \in 1..Len(Params) : (ValsOf(Params[i]) # <<>> => EmitParam(Params[i]))
 NoTable   == GenMode => \A i \in 1..Len(Params) :
